@@ -82,7 +82,7 @@ func randInstr(r *rand.Rand, m, rl, wl int64) []int64 {
 
 // genStep: every one of the 17*7*8*8 instruction forms k times at the program
 // counter of a fully random core; one RunCycle.  overM: limits may exceed M.
-func genStep(w *bufio.Writer, r *rand.Rand, k int, overM bool, bigEvery int) {
+func genStep(w *bufio.Writer, r *rand.Rand, k int, overM bool, bigEvery int, flags int64) {
 	cnt := 0
 	for op := 0; op < 17; op++ {
 		for md := 0; md < 7; md++ {
@@ -114,7 +114,7 @@ func genStep(w *bufio.Writer, r *rand.Rand, k int, overM bool, bigEvery int) {
 						}
 						p := pick(r, []int64{1, 1, 2, 3, 8})
 						pc := r.Int63n(m)
-						c := []int64{1, m, rl, wl, p, 1, 1 | 8, 1, 1, m, pc, 0}
+						c := []int64{1, m, rl, wl, p, 1, flags, 1, 1, m, pc, 0}
 						for a := int64(0); a < m; a++ {
 							if a == pc {
 								c = append(c, int64(op), int64(md), biasedField(r, m, rl, wl), int64(am),
@@ -135,9 +135,11 @@ func generate(w *bufio.Writer, kind string, seed int64, n int, args []string) {
 	r := rand.New(rand.NewSource(seed))
 	switch kind {
 	case "step":
-		genStep(w, r, n, false, 997)
+		genStep(w, r, n, false, 997, 1|8)
 	case "stepover":
-		genStep(w, r, n, true, 0)
+		genStep(w, r, n, true, 0, 1|8)
+	case "stepr":
+		genStep(w, r, n, false, 0, 1|8|16|32)
 	default:
 		if !generateMore(w, r, kind, n, args) {
 			fmt.Fprintln(w, "0")
@@ -145,4 +147,173 @@ func generate(w *bufio.Writer, kind string, seed int64, n int, args []string) {
 	}
 }
 
-func generateMore(w *bufio.Writer, r *rand.Rand, kind string, n int, args []string) bool { return false }
+func generateMore(w *bufio.Writer, r *rand.Rand, kind string, n int, args []string) bool {
+	switch kind {
+	case "apix":
+		genApiExhaustive(w, n)
+	case "api":
+		genApiRandom(w, r, n, 60)
+	case "rot":
+		genRot(w, r, n)
+	case "config":
+		genConfig(w, r, n)
+	case "battle":
+		// args: flags maxWarriors wrap(0/1) maxCycles
+		fl, mw, wrp, mc := int64(2|4), 4, false, 200
+		if len(args) > 0 {
+			v, _ := strconv.ParseInt(args[0], 10, 64)
+			fl = v
+		}
+		if len(args) > 1 {
+			mw, _ = strconv.Atoi(args[1])
+		}
+		if len(args) > 2 {
+			wrp = args[2] == "1"
+		}
+		if len(args) > 3 {
+			mc, _ = strconv.Atoi(args[3])
+		}
+		genBattle(w, r, n, fl, mw, wrp, mc)
+	default:
+		return false
+	}
+	return true
+}
+
+// ---------- battles ----------
+
+var structured = [][][]int64{
+	{{1, 6, 0, 0, 1, 0}}, // imp
+	{{2, 3, 4, 1, 3, 0}, {1, 6, 2, 0, 2, 3}, {11, 2, -2, 0, 0, 0}, {0, 0, 0, 1, 0, 1}}, // dwarf
+	{{15, 2, 0, 0, 0, 0}, {1, 6, 0, 0, 1, 0}},                                          // spl fan + imp
+	{{0, 0, 0, 1, 0, 1}}, // dat
+	{{14, 2, 0, 0, 3, 1}, {0, 0, 0, 1, 0, 1}},                   // djn loop
+	{{15, 2, 2, 0, 0, 0}, {11, 2, -1, 0, 0, 0}, {1, 6, 0, 0, 1, 0}}, // spl/jmp + imp
+	{{1, 6, 1, 6, 2, 4}, {5, 5, 1, 1, 2, 0}, {6, 0, 0, 3, 1, 7}},    // mov }{, div, mod
+}
+
+func normField(v, m int64) int64 {
+	v %= m
+	if v < 0 {
+		v += m
+	}
+	return v
+}
+
+func genWarrior(r *rand.Rand, m, rl, wl int64) ([][]int64, int64) {
+	var code [][]int64
+	switch r.Intn(5) {
+	case 0, 1:
+		src := structured[r.Intn(len(structured))]
+		for _, i := range src {
+			c := append([]int64{}, i...)
+			c[2] = normField(c[2], m)
+			c[4] = normField(c[4], m)
+			code = append(code, c)
+		}
+	default:
+		n := 1 + r.Intn(6)
+		for i := 0; i < n; i++ {
+			code = append(code, randInstr(r, m, rl, wl))
+		}
+	}
+	if int64(len(code)) > m {
+		code = code[:m]
+	}
+	return code, int64(r.Intn(len(code)))
+}
+
+// genBattle: 1..4 warriors, small cores, limits at or below the core size.
+// wrap: placements may make code and entry points wrap past the end of the core.
+func genBattle(w *bufio.Writer, r *rand.Rand, n int, flags int64, maxW int, wrap bool, maxCycles int) {
+	for k := 0; k < n; k++ {
+		m := pick(r, []int64{5, 7, 8, 11, 13, 16, 17, 24, 32, 64})
+		rl, wl := m, m
+		if r.Intn(2) == 0 {
+			rl, wl = pickLimit(r, m), pickLimit(r, m)
+			if rl < 1 {
+				rl = 1
+			}
+			if wl < 1 {
+				wl = 1
+			}
+		}
+		p := pick(r, []int64{1, 2, 3, 8})
+		cyc := int64(1 + r.Intn(maxCycles))
+		if r.Intn(3) == 0 {
+			cyc = int64(1 + r.Intn(8))
+		}
+		nw := 1 + r.Intn(maxW)
+		c := []int64{1, m, rl, wl, p, cyc, flags, cyc + 2, int64(nw)}
+		for i := 0; i < nw; i++ {
+			code, start := genWarrior(r, m, rl, wl)
+			ln := int64(len(code))
+			var off int64
+			if wrap {
+				off = r.Int63n(m)
+			} else {
+				// entry point must not wrap: off + start < m
+				off = r.Int63n(m - start)
+			}
+			c = append(c, ln, start, off)
+			for _, ins := range code {
+				c = append(c, ins...)
+			}
+		}
+		wr(w, c)
+	}
+}
+
+// genRot: kind 4 = a battle and the same battle shifted by k (+ j*M on the offsets).
+func genRot(w *bufio.Writer, r *rand.Rand, n int) {
+	var buf []int64
+	for i := 0; i < n; i++ {
+		// generate a battle into a scratch writer
+		bw := &captureWriter{}
+		tmp := bufio.NewWriter(bw)
+		genBattle(tmp, r, 1, 2|8, 3, true, 60)
+		tmp.Flush()
+		c, err := parseCase(string(bw.b))
+		if err != nil || len(c) < 2 {
+			continue
+		}
+		m := c[1]
+		k := r.Int63n(m)
+		j := int64(0)
+		if r.Intn(3) == 0 {
+			j = int64(1 + r.Intn(3))
+		}
+		buf = append(buf[:0], 4, k, j)
+		buf = append(buf, c[1:]...)
+		wr(w, buf)
+	}
+}
+
+type captureWriter struct{ b []byte }
+
+func (c *captureWriter) Write(p []byte) (int, error) { c.b = append(c.b, p...); return len(p), nil }
+
+// genConfig: kind 3 = [mode M P C R W Len Dist]; every field from a boundary set or random below 2^20.
+func genConfig(w *bufio.Writer, r *rand.Rand, n int) {
+	vals := []int64{0, 1, 2, 3, 4, 1 << 10, 1 << 20}
+	pickv := func() int64 {
+		if r.Intn(4) == 0 {
+			return r.Int63n(1<<20 + 1)
+		}
+		return vals[r.Intn(len(vals))]
+	}
+	// a third of the cases: small boundary values around the acceptance conditions
+	small := []int64{0, 1, 2, 3, 4, 5}
+	cnt := 0
+	for ; cnt < n/3; cnt++ {
+		wr(w, []int64{3, int64(r.Intn(3)), 2 + pick(r, small), pick(r, small[:3]), pick(r, small[:3]), pick(r, small),
+			pick(r, small), pick(r, small), pick(r, small)})
+	}
+	for ; cnt < n; cnt++ {
+		m := pickv()
+		if r.Intn(3) == 0 {
+			m = int64(r.Intn(70))
+		}
+		wr(w, []int64{3, int64(r.Intn(3)), m, pickv(), pickv(), pickv(), pickv(), pickv(), pickv()})
+	}
+}
